@@ -1,6 +1,6 @@
 (* Executable entry points compared with the implementation by ./check C15. *)
 From ZV Require Import Prelude GoSem Paging.
-From ZV Require Export Handler Frame Session.
+From ZV Require Export Handler Frame Session BaseMsg.
 From ZV.gen Require Import Consts.
 Open Scope Z_scope.
 
@@ -41,5 +41,54 @@ Definition session_run (i : phase * list event) : phase := ph (run (mkConn (fst 
 Definition phase_eqb (a b : phase) : bool :=
   match a, b with
   | PEnc, PEnc | PProto, PProto | PWaitStatus, PWaitStatus | PRunning, PRunning | PClosed, PClosed => true
+  | _, _ => false
+  end.
+
+(* ---- base protocol (BaseMsg.v) *)
+Definition oz_eqb : option Z -> option Z -> bool := option_eqb Z.eqb.
+(* in: (limited, payload); out: the decoded reason, -1 for a panic *)
+Definition disc_reason_run (i : bool * list Z) : Z :=
+  match disc_reason (fst i) (snd i) with Ok r => r | Panic => -1 end.
+(* Peer.handle. in: (limited, plen, code, payload) *)
+Definition base_handle_run (i : bool * Z * Z * list Z) : hres := let '(l, plen, code, p) := i in handle_base l plen code p.
+Definition hres_eqb (a b : hres) : bool :=
+  match a, b with
+  | HPong, HPong | HIgnore, HIgnore | HOutOfRange, HOutOfRange | HPanic, HPanic => true
+  | HDisc x, HDisc y => x =? y
+  | HDeliver x, HDeliver y => x =? y
+  | _, _ => false
+  end.
+(* Peer.run over a message pipe (payload reader without a length). in: (plen, code, payload);
+   out: (0 pong / 1 open / 2 closed / 9 panic, reason handed to close, reason reported by run) *)
+Definition peer_run_run (i : Z * Z * list Z) : Z * Z * Z :=
+  let '(plen, code, p) := i in
+  match handle_base false plen code p with
+  | HPong => (0, 0, 0)
+  | HIgnore | HDeliver _ => (1, 0, 0)
+  | HDisc r => (2, close_reason (EReadDisc r), reported_reason (EReadDisc r))
+  | HOutOfRange => (2, close_reason EReadErr, reported_reason EReadErr)
+  | HPanic => (9, 0, 0)
+  end.
+Definition zzz15_eqb (a b : Z * Z * Z) : bool :=
+  let '(a1, a2, a3) := a in let '(b1, b2, b3) := b in (a1 =? b1) && (a2 =? b2) && (a3 =? b3).
+(* a running peer of the real Server over RLPx frames. in: (plen, code, payload) *)
+Definition srv_react_run (i : Z * Z * list Z) : reaction := let '(plen, code, p) := i in react true plen code p.
+Definition reaction_eqb (a b : reaction) : bool :=
+  match a, b with
+  | RPong, RPong | RStay, RStay | RPanic, RPanic => true
+  | RClosed x, RClosed y => oz_eqb x y
+  | _, _ => false
+  end.
+(* readProtocolHandshake. in: (limited, size, code, payload, decodes, version, id_zero); out: -1 ok, -2 error, -9 panic, r = DiscReason r *)
+Definition read_hs_run (i : bool * Z * Z * list Z * bool * Z * bool) : Z :=
+  let '(l, size, code, p, d, v, z) := i in
+  match read_hs l size code p d v z with HsOk => -1 | HsErr => -2 | HsPanic => -9 | HsDisc r => r end.
+(* Server.setupConn over RLPx frames. in: (size, code, payload, decodes, version, id_zero, id_match, caps_match) *)
+Definition setup_conn_run (i : Z * Z * list Z * bool * Z * bool * bool * bool) : setup_res :=
+  let '(size, code, p, d, v, z, im, cm) := i in setup_conn true size code p d v z im cm.
+Definition setup_res_eqb (a b : setup_res) : bool :=
+  match a, b with
+  | SAdded, SAdded | SPanic, SPanic => true
+  | SRefused x, SRefused y => oz_eqb x y
   | _, _ => false
   end.
